@@ -116,7 +116,9 @@ def run(ctx):
                         "any Err is accepted for an error layout (the statement does not name the error kinds)",
                         "malformed containers and count fields beyond the data region are C05, not exercised here; record offsets and "
                         "sizes are exercised over the whole u32 range in both build profiles",
-                        "names are taken from the lossless Shift-JIS domain; the codec (encoding_rs) is trusted"]
+                        "names are taken from the lossless Shift-JIS domain; the codec (encoding_rs) is trusted; record names include 63..129-byte ones, "
+                        "single-byte and double-byte names of 255/256/257, 300 and 1000 bytes (conforming layouts), and half-width katakana names "
+                        "whose Shift-JIS bytes are also well-formed UTF-8 (conforming and error layouts)"]
     cc.finish_unbuildable(ctx, unb)
 
 
